@@ -570,7 +570,10 @@ func (bc *c15Chain) StableBlock() *types.Block  { return bc.blk(bc.height - 1) }
 type c15Pool struct{}
 
 func (c15Pool) GetTxs(time uint32, size int) types.Transactions { return nil }
-func (c15Pool) AddTx(tx *types.Transaction) error               { return nil }
+// AddTx refuses: on success handleTxsMsg publishes the tx to pm.txCh, which only a started
+// txConfirmLoop drains; with no consumer subscribe.Send spins forever holding the router's read lock
+// and the next NewProtocolManager (Sub = write lock) never returns — a harness artifact, not a finding.
+func (c15Pool) AddTx(tx *types.Transaction) error { return fmt.Errorf("stub pool") }
 
 type c15NoBlocks struct{}
 
